@@ -161,3 +161,39 @@ func LoosePatch(t *rapid.T, cur *ref.V) *ref.V {
 	}
 	return a
 }
+
+// HostileRuns are byte sequences that are repeated inside string literals:
+// malformed UTF-8 of every flavour (each malformed byte grows to the 3-byte
+// U+FFFD when unquoted), escapes that expand or shrink, and plain filler.
+var HostileRuns = []string{"\xff", "\x80", "\xc3", "\xe2\x80", "\xed\xa0\x80", "\xf4\x90\x80\x80", "\xf0\x9f", "a\xff", "\xc0\xaf",
+	`\ud800`, `\udc00`, `😀`, `\u0000`, `\\`, `\"`, `\/`, `é`, "é", " ", "<", "😀"}
+
+// PoisonStrings inserts a run of 1-64 repetitions of one hostile sequence
+// into a string literal of text (a member name, a value, a pointer - whichever
+// literal the draw picks). Texts without a string literal are returned as is.
+func PoisonStrings(t *rapid.T, text []byte, label string) []byte {
+	var opens []int // offsets just behind an opening quote
+	in := false
+	for i := 0; i < len(text); i++ {
+		switch {
+		case text[i] == '\\' && in:
+			i++
+		case text[i] == '"':
+			in = !in
+			if in {
+				opens = append(opens, i+1)
+			}
+		}
+	}
+	if len(opens) == 0 {
+		return text
+	}
+	at := opens[Uniform(t, 0, len(opens)-1, label+"lit")]
+	run := rapid.SampledFrom(HostileRuns).Draw(t, label+"run")
+	n := rapid.SampledFrom([]int{1, 2, 3, 4, 5, 6, 7, 8, 9, 12, 16, 21, 32, 33, 64}).Draw(t, label+"n")
+	out := append([]byte{}, text[:at]...)
+	for i := 0; i < n; i++ {
+		out = append(out, run...)
+	}
+	return append(out, text[at:]...)
+}
